@@ -17,6 +17,14 @@ type propSpec struct {
 	Stub      []string
 	// Race: also run the property's programs free-running under the race detector.
 	Race bool
+	// Also lists further ids (pseudo properties served by other engines) whose
+	// runs are part of this property: runCheck fans their simulated runs out
+	// as well and aggregates them into this property's evidence; runRace
+	// alternates between the ids. Their budgets come from their own spec.
+	Also []string
+	// PartOf marks a spec that only exists as a part of another property
+	// (listed in that property's Also); it gets no evidence file of its own.
+	PartOf string
 	// MustReach lists reach probes that must be non-zero in the thorough tier.
 	MustReach []string
 }
@@ -67,8 +75,9 @@ var specs = map[string]*propSpec{
 	"C14": {
 		ID: "C14", Engine: "storesim", Level: "exploration",
 		QuickRuns: 40000, ThoroughRuns: 600000, Chunk: 250, WatchdogS: 400, Race: true,
-		Rule: "one evaluation = one concurrent program (2-16 client tasks, 1-5 operations each, on 1-4 overlapping blobs) against a backend composition, executed under the seeded scheduler (every seam call and, with a per-run probability, every lock acquisition is a scheduling point); per-key histories stamped with the global event sequence are checked with porcupine against a present/absent register (sub-runs = key histories checked), enumerations with interval semantics, sequential reads after quiescence are part of each history; a second configuration runs the same programs free-running under the race detector; distinct = distinct (composition, per-client op kinds)",
-		Real: []string{"pkg/blobserver/{memory,files,localdisk,diskpacked,blobpacked,encrypt,replica,shard,cond,overlay,namespace,proxycache}"},
+		Also: []string{"C14X"}, // the index part (engines/indexsim/c14.go); its rule is under coverage.also.C14X
+		Rule: "one evaluation = one concurrent program (2-16 client tasks, 1-5 operations each, on 1-4 overlapping blobs) against a backend composition, executed under the seeded scheduler (every seam call and, with a per-run probability, every lock acquisition is a scheduling point); per-key histories stamped with the global event sequence are checked with porcupine against a present/absent register (sub-runs = key histories checked), enumerations with interval semantics, sequential reads after quiescence are part of each history; a second configuration runs the same programs free-running under the race detector; distinct = distinct (composition, per-client op kinds); the index part of the statement (concurrently feed the index while it is queried) runs under the id C14X with its own rule (coverage.also.C14X); evaluations and distinct_nontrivial are the sums over both parts (per part: evaluations_by_id, distinct_nontrivial_by_id); the race configuration alternates between the two ids",
+		Real: []string{"pkg/blobserver/{memory,files,localdisk,diskpacked,blobpacked,encrypt,replica,shard,cond,overlay,namespace,proxycache}", "index part: see coverage.also.C14X"},
 		Stub: []string{"SimStore", "SimKV", "SimVFS", "os shim"},
 	},
 	"C04": {
